@@ -40,6 +40,13 @@ var formats = []type1.FileFormat{type1.FormatPFA, type1.FormatPFB, type1.FormatB
 
 func fontOutputs(f *type1.Font) (map[string][]byte, error) {
 	out := map[string][]byte{}
+	// first of all the default format (no options given): whatever any writer
+	// call of an earlier round did, it is the same output again
+	var def bytes.Buffer
+	if err := f.Write(&def, nil); err != nil {
+		return nil, err
+	}
+	out["default"] = def.Bytes()
 	for _, format := range formats {
 		var buf bytes.Buffer
 		if err := f.Write(&buf, &type1.WriterOptions{Format: format}); err != nil {
@@ -357,7 +364,7 @@ func hugeGlyphFont(n, segments int) *type1.Font {
 func TestP1Repeat(t *testing.T) {
 	rec := ev.New("C17", "repeat")
 	defer rec.Finish(t)
-	rec.Rule(fmt.Sprintf("values built to expose iteration order - fonts with up to 60 glyphs from the C09 generator plus glyphs whose names differ from another's in letter case only, metrics with 2-40 glyphs (names differing in case or leading zeros only) and 0-6 ligatures per glyph plus kerning, CMap files with 2-5 CMaps whose names are adjacent or equal, half of them with usecmap references to each other or to an outside CMap, and blocks with duplicate source codes (ties in the sort). History: each writer (4 Type 1 formats - for half of the fonts with writes to failing destinations, at byte offsets spread over the output, in between -, WritePDF with its two lengths, Metrics.Write, both GlyphList methods) is invoked %d times on the same value and every output must be byte-identical to the first; each reader (type1.Read on all four formats, afm.Read, ReadCMap - half of the CMap cases with other inputs read in between: CMap files that define straight into the procedure set, redefine its operators or stop half-way, and programs that store into shared-looking objects) is invoked repeatedly on the same bytes and must give deep-equal results (for CMaps: same CMap chosen, same tables in the same order). Non-trivial: the value has >= 1 map with >= 2 entries on an output path (>= 2 glyphs, >= 2 ligatures on a glyph, >= 2 CMaps); distinct by value. Go randomises map iteration per range statement: %d repeats of a two-entry map miss an order dependence with probability 2^-%d.", repeats, repeats, repeats-1))
+	rec.Rule(fmt.Sprintf("values built to expose iteration order - fonts with up to 60 glyphs from the C09 generator plus glyphs whose names differ from another's in letter case only, metrics with 2-40 glyphs (names differing in case or leading zeros only) and 0-6 ligatures per glyph plus kerning, CMap files with 2-5 CMaps whose names are adjacent or equal, half of them with usecmap references to each other or to an outside CMap, and blocks with duplicate source codes (ties in the sort). History: each writer (4 Type 1 formats - for half of the fonts with writes to failing destinations, at byte offsets spread over the output, in between -, WritePDF with its two lengths, Metrics.Write, both GlyphList methods) is invoked %d times on the same value and every output must be byte-identical to the first; each reader (type1.Read on all four formats, afm.Read, ReadCMap - half of the CMap cases with other inputs read in between: CMap files that define straight into the procedure set, redefine its operators or stop half-way, and programs that store into shared-looking objects) is invoked repeatedly on the same bytes and must give deep-equal results (for CMaps: same CMap chosen, same tables in the same order). Non-trivial: the value has >= 1 map with >= 2 entries on an output path (>= 2 glyphs, >= 2 ligatures on a glyph, >= 2 CMaps); distinct by value. Go walks a map of up to 8 entries in a rotation of its insertion order from a random start: a two-entry map shows its other order in 1 of 8 iterations, so the %d repeats of one case miss an order dependence of such a map with probability (7/8)^%d; the number of cases per run is what makes a miss improbable.", repeats, repeats, repeats-1))
 	ev.SetupRapid(3000, 96000)
 	rapid.Check(t, func(t *rapid.T) {
 		switch rapid.IntRange(0, 2).Draw(t, "kind") {
